@@ -14,6 +14,7 @@ from spacepackets.cfdp.pdu.file_directive import (
 )
 from spacepackets.cfdp.conf import PduConfig
 from spacepackets.crc import CRC16_CCITT_FUNC
+from spacepackets.exceptions import BytesTooShortError
 
 
 def get_max_seg_reqs_for_max_packet_size_and_pdu_cfg(
@@ -270,6 +271,8 @@ class NakPdu(AbstractFileDirectiveBase):
             struct_arg_tuple = ("!I", 4)
         else:
             struct_arg_tuple = ("!Q", 8)
+        if current_idx + 2 * struct_arg_tuple[1] > len(data):
+            raise BytesTooShortError(current_idx + 2 * struct_arg_tuple[1], len(data))
         nak_pdu.start_of_scope = struct.unpack(
             struct_arg_tuple[0],
             data[current_idx : current_idx + struct_arg_tuple[1]],
